@@ -56,7 +56,8 @@ def floors(tier):
     return {"distinct_nontrivial": 500, "lookups": 20000, "retrieve.exact": 10000, "check.compared": 10000,
             "cls:full_binding_history": 50, "cls:partial_binding_history": 500, "cls:overwrite": 100, "cls:clear": 100,
             "cls:extra_nonkey_entries": 100, "cls:values_shared_between_keys": 500, "cls:falsy_and_repeated_outputs": 300,
-            "cls:raw_values_incl_None": 300, "cls:keys_and_bindings_spelled_in_reverse_order": 300}
+            "cls:raw_values_incl_None": 300, "cls:keys_and_bindings_spelled_in_reverse_order": 300,
+            "cls:callers_dict_changed_after_insert": 200, "cls:lookups_left_after_their_first_match": 200}
 
 
 def _bindings(nkeys, alpha=2):
@@ -76,7 +77,8 @@ def cases(spec, ctx):
                 if i % spec["stride"] == spec["offset"]:
                     yield {"k": "exh", "nkeys": spec["nkeys"], "alpha": 2, "ops": [["ins", bs[j]] for j in seq], "lookups": "all",
                            "only_last": True, "shared_values": i % 2 == 1, "plain_outputs": i % 3 == 2,
-                           "raw_values": i % 5 == 4, "unsorted_spelling": i % 4 == 3}
+                           "raw_values": i % 5 == 4, "unsorted_spelling": i % 4 == 3,
+                           "caller_keeps_using_its_dict": i % 6 == 5, "abandoned_lookups": i % 7 == 6}
                 i += 1
         return
     for i in range(spec["n"]):
@@ -104,7 +106,8 @@ def cases(spec, ctx):
             lookups.append([l, rng.random() < 0.25])
         yield {"k": "rand", "nkeys": nkeys, "alpha": alpha, "ops": ops, "lookups": lookups, "only_last": False,
                "shared_values": rng.random() < 0.5, "plain_outputs": rng.random() < 0.4,
-               "raw_values": rng.random() < 0.15, "unsorted_spelling": rng.random() < 0.3}
+               "raw_values": rng.random() < 0.15, "unsorted_spelling": rng.random() < 0.3,
+               "caller_keeps_using_its_dict": rng.random() < 0.2, "abandoned_lookups": rng.random() < 0.2}
 
 
 # ------------------------------------------------------------------------------------------------ models
@@ -195,6 +198,7 @@ def check_case(case, ctx):
     if case.get("unsorted_spelling"):
         ctx.cls("cls:keys_and_bindings_spelled_in_reverse_order")
     model = []
+    suspended = []
     if case["lookups"] == "all":
         lookups = [[list(c), False] for c in itertools.product([None] + list(range(alpha)), repeat=nkeys)]
     else:
@@ -205,6 +209,10 @@ def check_case(case, ctx):
         ctx.cls("cls:values_shared_between_keys")
     if case.get("plain_outputs"):
         ctx.cls("cls:falsy_and_repeated_outputs")
+    if case.get("caller_keeps_using_its_dict"):
+        ctx.cls("cls:callers_dict_changed_after_insert")
+    if case.get("abandoned_lookups"):
+        ctx.cls("cls:lookups_left_after_their_first_match")
     known_seen = 0
     for step, op in enumerate(case["ops"]):
         if op[0] == "clear":
@@ -219,8 +227,22 @@ def check_case(case, ctx):
             out = [False, 0, True, "", None][step % 5] if case.get("plain_outputs") else f"out{step}"
             if any(mb == b for mb, _ in model):
                 ctx.cls("cls:overwrite")
-            cache.insert(dict(b), out)
+            if case.get("caller_keeps_using_its_dict"):
+                # the caller's own dict is handed in and changed afterwards (one scratch dict reused for the next binding)
+                scratch = dict(b)
+                cache.insert(scratch, out)
+                scratch.clear() if step % 2 else scratch.update({k: extra for k in keys})
+            else:
+                cache.insert(dict(b), out)
             model = [(mb, mo) for mb, mo in model if mb != b] + [(b, out)]
+            if case.get("abandoned_lookups") and step % 2 == 0:
+                # a lookup that is started and left after its first match (closed, or kept suspended) before the next operations
+                it_ = iter(cache.retrieve(dict(b)))
+                next(it_, None)
+                if step % 4 == 0:
+                    it_.close()
+                else:
+                    suspended.append(it_)
         if case.get("only_last") and step < len(case["ops"]) - 1:
             continue   # the prefixes are cases of their own in the exhaustive enumeration
         for lspec, with_extra in lookups:
